@@ -37,6 +37,34 @@ PROPS["C15"] = {
             "termination of allocate unproved",
 }
 
+KANI_WIRE = [
+    {"target": "src/tools/error.rs", "src": "units/wire/kani_stubs.rs"},
+    {"target": "src/common/lct.rs", "src": "units/wire/kani_lct.rs"},
+]
+
+PROPS["C06"] = {
+    "level": "proof",
+    "verus": [],
+    "kani": KANI_WIRE,
+    "structural": [],
+    "not_covered": [],
+    "design_ref": "DESIGN.md section 6, C06",
+    "technique": "Kani/CBMC full-domain harnesses on the real codecs against RFC decoders written from the RFC text; Verus for the extension walk",
+    "claim": "wip",
+    "note": "wip",
+}
+PROPS["C04"] = {
+    "level": "proof",
+    "verus": [],
+    "kani": KANI_WIRE,
+    "structural": [],
+    "not_covered": [],
+    "design_ref": "DESIGN.md section 6, C04",
+    "technique": "totality contracts: Kani on every datagram up to a stated length, Verus for unbounded loops and arithmetic",
+    "claim": "wip",
+    "note": "wip",
+}
+
 NOT_APPLICABLE = {
     "C16": "liveness over an unbounded packet history of the composed sender and receiver (\"within two further cycles\"); "
            "no function- or structure-level contract expresses it; its safety ingredients are verified under C17 and C19",
